@@ -94,7 +94,15 @@ def run(chk):
         st1 = add(o0, M1, None)
         if st1 is not None: sts.append(add(st1, M2, 'labels'))       # object-level + granular
         sts = [x for x in sts if x is not None]
+        # markings as they may arrive from elsewhere: the same (selector, marking) pair spelled more than once (repeated selector, overlapping entries)
+        red = [{'marking_ref': M1, 'selectors': ['name', 'name', 'labels']}, {'marking_ref': M1, 'selectors': ['name', 'description']}, {'marking_ref': M2, 'selectors': ['labels.[0]']},
+               {'marking_ref': M2, 'selectors': ['labels.[0]', 'created']}]
         if chk.tier == 'quick': sts = sts[::3]
+        try:
+            if isinstance(o0, dict): sts.insert(1, dict(o0, granular_markings=red))
+            else: sts.insert(1, type(o0)(allow_custom=True, **dict({k: v for k, v in o0.items() if k != 'type'}, granular_markings=red)))
+        except Exception as ex:      # noqa
+            chk.violation('input#redundantly spelled markings accepted', f'{kind}: granular_markings spelling a pair twice refused: {type(ex).__name__}: {ex}', {})
         states[kind] = sts
 
     def cases():
@@ -127,6 +135,13 @@ def run(chk):
                 if view(a12) != v0 | {(s, m), (s2, m)}: return ('add#multi-selector add with partial overlap', f'{ctx}: add({m[-4:]}, {s}) then add({m[-4:]}, [{s}, {s2}]) gives {sorted(view(a12) ^ (v0 | {(s, m), (s2, m)}))[:3]}', {})
                 b = markings.add_markings(markings.add_markings(st, M2, s2), m, s); c = markings.add_markings(markings.add_markings(st, m, s), M2, s2)
                 if view(b) != view(c): return ('add#order-independent', f'{ctx}: adds commute? {sorted(view(b) ^ view(c))[:3]}', {})
+        # removing a pair that is present (however often it is spelled) leaves exactly the other pairs
+        for m in MARKS_K:
+            if (s, m) in v0:
+                try: r0 = markings.remove_markings(st, m, s)
+                except MarkingNotFoundError: return ('remove#present pair refused', f'{ctx}: remove({m[-4:]}, {s}) refused although the pair is present', {})
+                if view(r0) != v0 - {(s, m)}: return ('remove#view == old - {(s, m)}', f'{ctx}: after remove({m[-4:]}, {s}) the view differs from old - pair by {sorted(view(r0) ^ (v0 - {(s, m)}))[:3]}', {})
+                if markings.is_marked(r0, m, s): return ('remove#then no longer reported', f'{ctx}: ({s}, {m[-4:]}) still is_marked after remove', {})
         # lists of markings and lists of selectors in one call: the same set operations, pairwise
         s2 = 'labels.[1]' if s != 'labels.[1]' else 'description'
         ms2 = [M1, M2]; pairs = {(x, m) for x in (s, s2) for m in ms2}
@@ -219,3 +234,31 @@ def run(chk):
                 except (stix2.exceptions.STIXError, ValueError): continue
                 if view(o) != view(md) or objview(o) != objview(md): return ('frame#marking definition unchanged', f'{k}: a refused or accepted marking operation changed the marking definition', {})
     chk.bounded('marking definitions: queries against the path-tree model', list(md_cases()), md_check, classify=lambda c: c, bound='marking definition as object and dictionary x 6 selectors x 4 flag combinations x 3 markings')
+
+    # selectors whose nested steps are one or two characters long (dictionary keys: language codes, observed-data member keys): the same laws
+    from props.C08 import shapes as sel_shapes
+    short = {'language-content21': ['contents.de', 'contents.de.name', 'contents.fr.name', 'contents'], 'observed-data20': ['objects.0', 'objects.0.name', 'objects.a1.value', 'objects']}
+
+    def short_cases():
+        for name, sels in short.items():
+            for form in ('object', 'dictionary'):
+                for sel in sels:
+                    for m in (M1, LANG) if name.endswith('21') else (M1,): yield (name, form, sel, m)
+
+    def short_check(case):
+        name, form, sel, m = case
+        d = sel_shapes()[name]; o = stix2.parse(dict(d)) if form == 'object' else dict(d)
+        ctx = f'{name} ({form})'
+        try:
+            a = markings.add_markings(o, m, sel)
+            if view(a) != {(sel, m)}: return ('add#view == old | {(s, m)}', f'{ctx}: add({m[-4:]}, {sel}) gives {sorted(view(a))}', {})
+            if m not in markings.get_markings(a, sel) or not markings.is_marked(a, m, sel): return ('add#then reported by get_markings', f'{ctx}: ({sel}, {m[-4:]}) not reported after add', {})
+            par = sel.rsplit('.', 1)[0]
+            if par != sel and m not in markings.get_markings(a, par, descendants=True): return ('query#get_markings follows the path tree (inherited=False, descendants=True)', f'{ctx}: {sel} not found below {par}', {})
+            if view(markings.remove_markings(a, m, sel)): return ('remove#after fresh add restores', f'{ctx}: remove after add leaves {sorted(view(markings.remove_markings(a, m, sel)))}', {})
+            if view(markings.clear_markings(a, sel)): return ('clear#nothing on s, everything elsewhere', f'{ctx}: clear({sel}) leaves something', {})
+            if view(markings.set_markings(a, M2, sel)) != {(sel, M2)}: return ('set#equals clear then add', f'{ctx}: set(M2, {sel})', {})
+            if form == 'object' and stix2.parse(a.serialize()) != a: return ('add#result is a valid object', f'{ctx}: the marked object does not survive serialize/parse', {})
+        except (stix2.exceptions.STIXError, ValueError) as ex:
+            return ('selector#valid selector rejected:' + type(ex).__name__, f'{ctx}: marking operations on the existing path {sel!r} raised {type(ex).__name__}: {str(ex)[:100]}', {})
+    chk.bounded('selectors with one- and two-character nested steps', list(short_cases()), short_check, classify=lambda c: c, bound='language-content (2.1) and observed-data (2.0), object and dictionary form, 4 selectors each, marking-ref and language markings')
